@@ -22,6 +22,8 @@ func monitorReady(sc RScenario, o rOutcome) (vs []viol) {
 	runHeld := false // Run is (still) held by the harness before its Unlock
 	released := map[int]bool{}
 	cancelled := map[int]bool{}
+	// runCtx: where Run's own ctx was ended by the scenario relative to the initial fetch ("" = never)
+	runCtx := runCtxPhase(sc)
 	for _, op := range sc.Ops {
 		switch op.Op {
 		case "run", "runp":
@@ -61,8 +63,16 @@ func monitorReady(sc RScenario, o rOutcome) (vs []viol) {
 					id = "getsvid-before-run-deadlock"
 				}
 			}
-			vs = append(vs, viol{id, fmt.Sprintf("call %d (%s) never returned although Run was called and the issuer answered: schedule %s",
-				i, o.Kinds[i], sc.String())})
+			what := fmt.Sprintf("call %d (%s) never returned although Run was called and the issuer answered: schedule %s",
+				i, o.Kinds[i], sc.String())
+			if runCtx != "" {
+				// the property's clause does not depend on the state of Run's ctx: the initial fetch has
+				// finished (the issuer returned: ok=%v), so the call must return
+				id = "ready-not-signalled-run-ctx-done"
+				what = fmt.Sprintf("call %d (%s, own context alive) never returned although the initial fetch has finished (issuer answered ok=%v, Run returned %q); Run's own ctx was ended %s: schedule %s",
+					i, o.Kinds[i], replyOK, o.RunRet, runCtx, sc.String())
+			}
+			vs = append(vs, viol{id, what})
 		}
 	}
 	// results
@@ -90,6 +100,63 @@ func monitorReady(sc RScenario, o rOutcome) (vs []viol) {
 		vs = append(vs, viol{"run-swallowed-initial-error", "initial fetch failed but Run returned " + o.RunRet + ": " + sc.String()})
 	}
 	return vs
+}
+
+// runCtxPhase says where the scenario ends Run's own ctx relative to the initial fetch ("" = it does not).
+func runCtxPhase(sc RScenario) string {
+	runCalled, replied, runHeld := false, false, false
+	for _, op := range sc.Ops {
+		if op.endsRunCtx() {
+			ph := ""
+			switch {
+			case op.Op != "stoprun" && replied:
+				ph = "inside the issuer callback as a renewal is answered"
+			case op.Op != "stoprun":
+				ph = "inside the issuer callback, immediately before it returned the initial answer"
+			case !runCalled:
+				ph = "before Run was called"
+			case !replied:
+				ph = "while the initial request was in flight at the issuer"
+			case runHeld:
+				ph = "after the issuer answered, Run held between close(readyCh) and Unlock"
+			default:
+				ph = "after the issuer answered"
+			}
+			if op.S != "" {
+				ph += " (" + op.S + ")"
+			}
+			return ph
+		}
+		switch op.Op {
+		case "run":
+			runCalled = true
+		case "runp":
+			runCalled, runHeld = true, true
+		case "rrel":
+			runHeld = false
+		case "ok", "fail":
+			replied = true
+		}
+	}
+	return ""
+}
+
+// withoutRunCtxEnd is the same schedule with Run's ctx left alive (control for a hang finding).
+func withoutRunCtxEnd(sc RScenario) RScenario {
+	var out RScenario
+	for _, op := range sc.Ops {
+		if op.Op == "stoprun" {
+			continue
+		}
+		op.X, op.S = false, ""
+		out.Ops = append(out.Ops, op)
+	}
+	return out
+}
+
+// hangFinding: the finding is decided by a deadline (a call that has not returned).
+func hangFinding(id string) bool {
+	return strings.Contains(id, "deadlock") || id == "ready-not-signalled-run-ctx-done"
 }
 
 func half(nb, na time.Time) time.Time { return nb.Add(na.Sub(nb) / 2) }
